@@ -200,6 +200,12 @@ func (s *Syncer[H]) tailHeight(ctx context.Context, oldTail, head H) (uint64, er
 // estimateTailHeight estimates the tail header based on the current head.
 // It respects the trusting period, ensuring Syncer never initializes off an expired header.
 func (s *Syncer[H]) estimateTailHeight(head H) uint64 {
+	if s.Params.blockTime <= 0 {
+		// block time is not configured, so the amount of headers to retain can't be estimated:
+		// keep all the headers starting from genesis
+		return 1
+	}
+
 	headersToRetain := uint64(s.Params.trustingPeriod / s.Params.blockTime) //nolint:gosec
 	if headersToRetain >= head.Height() {
 		// means chain is very young so we can keep all headers starting from genesis
@@ -222,6 +228,10 @@ func (s *Syncer[H]) findTailHeight(ctx context.Context, oldTail, head H) (uint64
 	case tailTimeDiff <= 0:
 		// current tail is relevant as is
 		return oldTail.Height(), nil
+	case s.Params.blockTime <= 0:
+		// block time is not configured, so there is nothing to estimate with
+		// start right above the current tail and find the new one by iterating
+		estimatedTailHeight = oldTail.Height() + 1
 	case tailTimeDiff >= window:
 		// current and expected tails are far from each other
 		// estimate with head for higher accuracy
